@@ -24,7 +24,10 @@ type Bias struct {
 	// CancelBursts: share (percent) of bursts [settle, approve, k reconciles, rollback|release]: a
 	// template change placed right behind a step transition
 	CancelBursts int
-	Faults       bool // inject API errors / crashes (one armed at a time, "the N-th call from now")
+	// JumpBursts: share (percent) of bursts [settle, jump]: a jump requested while the rollout waits
+	// at a step (its own upgrade done)
+	JumpBursts int
+	Faults     bool // inject API errors / crashes (one armed at a time, "the N-th call from now")
 }
 
 // FindingGatewayDisableCanarySvc: Gateway API provider with disableGenerateCanaryService: true.
@@ -203,6 +206,8 @@ func GenHistory(t *rapid.T, s Scenario, b Bias) []Action {
 			out = append(out, Action{Kind: "restart"})
 		case r >= 100-b.SettlePct:
 			out = append(out, Action{Kind: "settle"})
+		case r >= 100-b.SettlePct-b.CancelBursts-b.JumpBursts && r < 100-b.SettlePct-b.CancelBursts:
+			out = append(out, Action{Kind: "settle"}, Action{Kind: "user", Arg: UserJump, N: rapid.IntRange(1, len(s.Steps)).Draw(t, "jump-to")})
 		case r >= 100-b.SettlePct-b.CancelBursts:
 			out = append(out, Action{Kind: "settle"}, Action{Kind: "user", Arg: UserApprove})
 			for k := rapid.IntRange(0, 4).Draw(t, "burst-reconciles"); k > 0; k-- {
@@ -213,7 +218,12 @@ func GenHistory(t *rapid.T, s Scenario, b Bias) []Action {
 			} else {
 				out = append(out, Action{Kind: "user", Arg: UserRelease, N: rapid.IntRange(0, 2).Draw(t, "version")})
 			}
-		case r >= 96-b.SettlePct-b.CancelBursts && b.Faults:
+			// ... followed by controller work only: the environment (workload controllers, garbage
+			// collector) lags behind
+			for k := rapid.IntRange(0, 14).Draw(t, "burst-after"); k > 0; k-- {
+				out = append(out, Action{Kind: "reconcile", I: rapid.IntRange(0, 3).Draw(t, "q-index")})
+			}
+		case r >= 96-b.SettlePct-b.CancelBursts-b.JumpBursts && b.Faults:
 			out = append(out, genFault(t))
 		default:
 			if len(pool) == 0 {
